@@ -38,6 +38,7 @@ class Scenario(object):
         self.profile = profile
         self.serial = SERIAL_BASE
         self.session = 0
+        self.fail_exes = set()         # executables (exe, exe2, exe3) whose every invocation fails
         self.starts = []               # dicts: session, bench, exe, dps: [[(crit, serial), …, ('total', serial)], …]
         os.makedirs(wd, exist_ok=True)
         self.conf = drive.write_config(wd, self.config())
@@ -84,6 +85,8 @@ class Scenario(object):
             return self._profile_script(rec, toks)
         bench = toks[-1]
         suite_cmd = toks[-2]   # 'h' (suite S) or 'h2' (suite S2)
+        if toks[0].rsplit('/', 1)[-1] in self.fail_exes:
+            return drive.Outcome(1, 'benchmark failed\n')
         dps = []
         out = ''
         for _it in range(self.iterations):
@@ -109,6 +112,8 @@ class Scenario(object):
                                 'dps': [[('profile', s)]], 'n': len(self.starts)})
             return drive.Outcome(0, '# perf\n    50.00%%  exe  libx.so  [.] sym%d\n' % s)
         self._last = (toks[-1], toks[-3].rsplit('/', 1)[-1])
+        if self._last[1] in self.fail_exes:
+            return drive.Outcome(1, 'benchmark failed\n')
         return drive.Outcome(0, '')
 
     def run(self, extra_argv=(), filters=()):
